@@ -73,7 +73,7 @@ func (n *vhNet) pump() {
 	vrtAssert(false, "net-terminates")
 }
 
-var vhC15Ops = []string{"tell", "kill-immediate", "kill-poison", "watch", "ping", "ask-reply", "pipeto", "unwatch", "watch-same-path-two-systems", "pipeto-failure"}
+var vhC15Ops = []string{"tell", "kill-immediate", "kill-poison", "watch", "ping", "ask-reply", "pipeto", "unwatch", "watch-same-path-two-systems", "pipeto-failure", "pipeto-fieldless"}
 
 // VH_C15_remote_ops: param "op" selects the operation; the same scenario is run
 // with the target in the same system ("local") and in the other system
@@ -87,6 +87,9 @@ func VH_C15_remote_ops() {
 		vhLog = append(vhLog, vhLogEntry{"target", m})
 		if u, ok := m.(*vhUser); ok && len(u.Payload) == 1 && u.Payload[0] == 9 {
 			ctx.Reply(&vhUser{Payload: []byte{10}})
+		}
+		if u, ok := m.(*vhUser); ok && len(u.Payload) == 1 && u.Payload[0] == 6 {
+			ctx.Reply(&messages.WatchMessage{}) // a registered message without fields: zero-byte body
 		}
 		if u, ok := m.(*vhUser); ok && len(u.Payload) == 1 && u.Payload[0] == 8 {
 			ctx.Reply(errors.New("boom")) // a failure that is not a *vivid.Error
@@ -220,6 +223,22 @@ func VH_C15_remote_ops() {
 				got++
 				r, isU := pr.Message.(*vhUser)
 				vrtAssert(pr.Error == nil && isU && len(r.Payload) == 1 && r.Payload[0] == 10, "pipeto-forwards-the-reply")
+			}
+		}
+		vrtAssert(got == 1, "pipeto-forwards-exactly-once")
+	case "pipeto-fieldless":
+		// the piped reply is a registered message without fields (its encoded body
+		// is zero bytes): the forwarder still receives that message, not "nothing"
+		id := c.PipeTo(ref, &vhUser{Payload: []byte{6}}, vivid.ActorRefs{fref}, time.Minute)
+		n.pump()
+		vrtYield()
+		n.pump()
+		got := 0
+		for _, m := range fa.seen {
+			if pr, ok := m.(*vivid.PipeResult); ok && pr.Id == id {
+				got++
+				_, isW := pr.Message.(*messages.WatchMessage)
+				vrtAssert(pr.Error == nil && isW, "pipeto-forwards-the-reply")
 			}
 		}
 		vrtAssert(got == 1, "pipeto-forwards-exactly-once")
